@@ -1,6 +1,7 @@
 package sim
 
 import (
+	"github.com/onheap/eval"
 	"fmt"
 	"strconv"
 	"strings"
@@ -723,7 +724,11 @@ func (it *Interp) Kleene(n *Node) (interface{}, error) {
 	if IsBuiltin(n.Name) {
 		return ApplyBuiltin(n.Name, args)
 	}
-	return it.Env.CallOp(n.Name, args)
+	v, err := it.Env.CallOp(n.Name, args)
+	if err == nil && v == eval.DNE {
+		return Unknown, nil // an operator that itself reports "not available"
+	}
+	return v, err
 }
 
 func fmtErr(err error) string {
